@@ -24,6 +24,14 @@ PlacedRightE(e, n, sym, img) ==
   /\ \A w \in 0..(f.size - 1) : \A b \in 1..4 :
         <<sym[n] + 4 * w + b - 1, (IF e.big THEN Rev(Bytes(LinkedWord(f, w, sym))) ELSE Bytes(LinkedWord(f, w, sym)))[b]>> \in img
 
+\* the [import] sections of the listing (-l): every byte of a placed function is shown, with its true value
+\* (C18 for imported code).  e.claims: [a |-> address printed, b |-> bytes the opcode column stands for]
+ClaimCells(e) == UNION {{<<e.claims[i].a + k - 1, e.claims[i].b[k]>> : k \in 1..Len(e.claims[i].b)} : i \in 1..Len(e.claims)}
+ImportsListed(e, need, sym, img) ==
+  LET cells == ClaimCells(e) IN
+  /\ {c \in cells : c[1] >= e.end} \subseteq img
+  /\ UNION {Span(sym[n], 4 * Def(e.files, n).f.size) : n \in need} \subseteq {c[1] : c \in cells}
+
 Why(e) ==
   LET \* references to names the program defines itself (e.own) are not references to imported code
       ext == SelectSeq(e.refs, LAMBDA n : \A i \in 1..Len(e.own) : e.own[i] # n)
@@ -43,6 +51,7 @@ Why(e) ==
       (IF \A n \in need : PlacedRightE(e, n, sym, img) THEN <<>> ELSE <<"PlacedRight">>)
       \o (IF NoOverlap(e.files, need, sym) THEN <<>> ELSE <<"PlacedOnce">>)
       \o (IF OnlyNeeded(e.files, need, sym, img, e.end) THEN <<>> ELSE <<"OnlyNeeded">>)
+      \o (IF ImportsListed(e, need, sym, img) THEN <<>> ELSE <<"ImportsListed">>)
       \o (IF ((DOMAIN sym) \cap Defined(e.files)) \ {e.own[i] : i \in 1..Len(e.own)} = need THEN <<>> ELSE <<"OnlyNeededSymbols">>)
 
 Report ==
